@@ -4,6 +4,7 @@ from vlib.common import *
 from vlib import coqrun as cq
 from vlib.impl import Sandbox, snap_diff
 from vlib import world
+_run = run      # vlib.common.run (the module-level run(ctx) below shadows the name)
 
 HEADER = 'From AP Require Import Corr.Check_C14.\nOpen Scope N_scope.\n'
 MODULE_ID = 'skill:demo'
@@ -11,7 +12,7 @@ MODULE_REL = 'modules/skills/demo'
 SKILL_MD = '---\nname: demo\ndescription: d\n---\nbody\n'
 INDEX_RE = re.compile(rb'^index [0-9a-f]{7,40}\.\.[0-9a-f]{7,40}', re.M)
 CORPUS_DIR = os.path.join(CORPUS, 'C14')
-MARK_RE = re.compile(rb'^([+\- ]?)(<<<<<<<|>>>>>>>) \S*/\.tmp\w+$', re.M)
+MARK_RE = re.compile(rb'^([+\- ]?)(<<<<<<<|>>>>>>>) \S*/\.tmp\w+(\r?)$', re.M)
 
 # ------------------------------------------------------------------ sandbox / world
 
@@ -41,7 +42,7 @@ class Sb(Sandbox):
 def norm_markers(b):
     """conflict-marker labels are temp-file names of the merging process: canonicalise them"""
     def f(m):
-        return m.group(1) + m.group(2) + (b' OURS' if m.group(2) == b'<<<<<<<' else b' THEIRS')
+        return m.group(1) + m.group(2) + (b' OURS' if m.group(2) == b'<<<<<<<' else b' THEIRS') + m.group(3)
     b = MARK_RE.sub(f, b)
     if b.startswith(b'diff --git '):
         # blob ids in a patch's index line hash the marker labels too: not compared
@@ -65,7 +66,7 @@ class Git:
             d = self._dir()
             for nm, c in (('o', ours), ('b', base), ('t', theirs)):
                 world.write(os.path.join(d, nm), c)
-            p = run(['git', 'merge-file', '-p', '-L', 'OURS', '-L', 'BASE', '-L', 'THEIRS', 'o', 'b', 't'], cwd=d, env=self.env)
+            p = _run(['git', 'merge-file', '-p', '-L', 'OURS', '-L', 'BASE', '-L', 'THEIRS', 'o', 'b', 't'], cwd=d, env=self.env)
             self.merge_cache[k] = (p.returncode, p.stdout)
             shutil.rmtree(d, ignore_errors=True)
         return self.merge_cache[k]
@@ -75,7 +76,7 @@ class Git:
             d = self._dir()
             world.write(os.path.join(d, 'w', rel), target)
             world.write(os.path.join(d, 'p.patch'), patch)
-            p = run(['git', '-c', 'core.autocrlf=false', 'apply', '--whitespace=nowarn', os.path.join(d, 'p.patch')],
+            p = _run(['git', '-c', 'core.autocrlf=false', 'apply', '--whitespace=nowarn', os.path.join(d, 'p.patch')],
                     cwd=os.path.join(d, 'w'), env=self.env)
             res = None
             if p.returncode == 0:
@@ -92,7 +93,7 @@ class Git:
             d = self._dir()
             world.write(os.path.join(d, 'a', rel), a)
             world.write(os.path.join(d, 'b', rel), b)
-            p = run(['git', '-c', 'core.autocrlf=false', 'diff', '--no-index', '--src-prefix=', '--dst-prefix=', '--',
+            p = _run(['git', '-c', 'core.autocrlf=false', 'diff', '--no-index', '--src-prefix=', '--dst-prefix=', '--',
                      'a/' + rel, 'b/' + rel], cwd=d, env=self.env)
             self.diff_cache[k] = p.stdout if p.returncode == 1 else (None if p.returncode == 0 else b'?diff-failed')
             shutil.rmtree(d, ignore_errors=True)
@@ -133,7 +134,7 @@ class World:
         world.write_config(self.repo, man)
         self.overlay_dir = None
     def git(self, *a, check=True):
-        p = run(['git', '-C', self.repo] + list(a), env=self.sb.env())
+        p = _run(['git', '-C', self.repo] + list(a), env=self.sb.env())
         if check and p.returncode != 0:
             raise InfraError('git %r failed: %s' % (a, p.stderr.decode('utf-8', 'replace')[:300]))
         return p.stdout.decode('utf-8', 'replace')
@@ -334,7 +335,7 @@ def gen_spec(rng, idx, kind=None, quick=True):
     pool = list(DIR_PATHS if kind == 'dir' else PATCH_PATHS); rng.shuffle(pool)
     nfiles = rng.randrange(3, 8 if kind == 'dir' else 6)
     fams = [f for f in FAMILIES if kind == 'dir' or f not in ('ov_added', 'binary')]
-    weights = [0.35 if f == 'binary' else 1.0 for f in fams]
+    weights = [{'binary': 0.2, 'overlap': 0.45, 'multi': 0.3, 'adjacent': 0.45}.get(f, 1.0) for f in fams]
     spec = {'name': 'gen%d' % idx, 'kind': kind, 'scope': rng.choice(['global', 'machine', 'project']),
             'home_mode': rng.choice(['aphome', 'aphome', 'aphome', 'default', 'default', 'dotset']),
             'git_repo': rng.random() >= 0.04, 'edit_mode': rng.choice(['full', 'full', 'sparse']) if kind == 'dir' else 'sparse',
@@ -380,6 +381,9 @@ class Run:
 def patch_target(rp):
     return rp[:-len('.patch')] if rp.endswith('.patch') and len(rp) > len('.patch') or rp == '.patch' else None
 
+def valid_rel(p):
+    return p != '' and not p.startswith('/') and all(seg not in ('', '.', '..') for seg in p.split('/'))
+
 def has_patch_ext(rp):
     name = rp.split('/')[-1]
     if '.' not in name: return False
@@ -424,7 +428,7 @@ def collect_oracles(w, R, st, up):
                 rc, m = g.merge3(b, o, u); R.reg(m)
     for rp, p in st['patches'].items():
         rt = patch_target(rp)
-        if rt is None: continue
+        if rt is None or not valid_rel(rt): continue
         b = base.get(rt)
         if b is None: continue
         o = g.apply(p, rt, b)
@@ -439,7 +443,7 @@ def collect_oracles(w, R, st, up):
 def collect_mat_oracles(w, R, st, up):
     for rp, p in st['patches'].items():
         rt = patch_target(rp)
-        if rt is not None and up.get(rt) is not None:
+        if rt is not None and valid_rel(rt) and up.get(rt) is not None:
             R.reg(w.g.apply(p, rt, up[rt]))
 
 def invoke(w, R, spec, stepspec, up, dry, yes=True):
@@ -487,7 +491,7 @@ def oracle_real(w, R, spec, iv):
         items = []
         for rp, p in pre['patches'].items():
             rt = patch_target(rp)
-            if rt is None or not has_patch_ext(rp): continue
+            if rt is None or not has_patch_ext(rp) or not valid_rel(rt): continue
             b = base.get(rt)
             items.append((rp, rt, w.g.apply(p, rt, b) if (b is not None and rt in man) else None))
     for key, r, o in items:
@@ -658,7 +662,10 @@ def check_step(w, R, spec, st, got):
         V, tags, anyc = oracle_real(w, R, spec, real)
         for v in V: viol(v)
         # idempotence of a conflict-free rebase
-        if 'second' in got and ob['ok']:
+        clean = real['head'] == real['up'] and real['rev'] is not None
+        dangling = spec['kind'] == 'patch' and any(
+            (patch_target(rp) or rp) not in pre['baseline']['manifest'] and (patch_target(rp) or rp) in real['up'] for rp in pre['patches'])
+        if 'second' in got and ob['ok'] and clean and not dangling:
             s2 = got['second']; o2 = s2['ob']
             snap1 = canon(real['raw_after']); snap2 = canon(s2['raw_after'])
             bad = []
@@ -791,3 +798,220 @@ def scenario_term(w, R, init, init_base, ivs):
         steps.append(cq.cpair('true', cq.cbool(iv['yes']), cq.cbool(iv['dry']), cq.cbool(iv['sparsify']), we, obs_term(t, w, R, iv)))
     body = cq.cpair(state_term(t, w, R, init, init_base), cq.cpair(cq.clist(mt), cq.clist(at), cq.clist(dt)), cq.clist(steps))
     return t.wrap(body)
+
+# ------------------------------------------------------------------ hand-written worlds
+
+B7 = 'x0\nx1\nx2\nx3\nx4\nx5\nx6\n'
+
+def base_spec(name, kind='dir', **kw):
+    s = {'name': name, 'kind': kind, 'scope': 'global', 'home_mode': 'aphome', 'git_repo': True,
+         'edit_mode': 'full' if kind == 'dir' else 'sparse', 'base': {'a.md': B7, 'b.md': 'y0\ny1\n'}, 'ours': {}, 'raw_patches': {},
+         'meta': {}, 'fams': {}, 'steps': [{'up': {'a.md': B7.replace('x5', 'U5')}, 'commit': True, 'sparsify': False,
+                                           'dry_first': True, 'second': True, 'noyes': False}]}
+    s.update(kw)
+    return s
+
+def corpus_specs():
+    """witnesses of repaired defects (must pass now, fail on regression) and of the known finding"""
+    out = []
+    # F10: default ~/.agentpack/repo — unmodified copies must follow upstream
+    out.append(base_spec('f10_default_home', home_mode='default'))
+    out.append(base_spec('f10_default_home_patch', kind='patch', home_mode='default', ours={'a.md': B7.replace('x1', 'O1')}))
+    # F14m: two separate conflict hunks in one file
+    out.append(base_spec('multi_conflict', ours={'a.md': B7.replace('x0', 'O0').replace('x6', 'O6')},
+                         steps=[{'up': {'a.md': B7.replace('x0', 'U0').replace('x6', 'U6')}, 'commit': True, 'sparsify': False,
+                                 'dry_first': True, 'second': True, 'noyes': False}]))
+    out.append(base_spec('multi_conflict_patch', kind='patch', ours={'a.md': B7.replace('x0', 'O0').replace('x6', 'O6')},
+                         steps=[{'up': {'a.md': B7.replace('x0', 'U0').replace('x6', 'U6')}, 'commit': True, 'sparsify': False,
+                                 'dry_first': True, 'second': True, 'noyes': False}]))
+    return out
+
+def k14b_spec():
+    return base_spec('k14b_witness', ours={'n.md': 'new\n'},
+                     steps=[{'up': {'n.md': 'new\n'}, 'commit': True, 'sparsify': True, 'dry_first': False, 'second': True, 'noyes': False}])
+
+def error_specs(rng):
+    S = []
+    S.append(base_spec('no_overlay', meta={'skip_edit': True}))
+    S.append(base_spec('no_baseline', meta={'remove_baseline': True}))
+    S.append(base_spec('no_git', git_repo=False, ours={'a.md': B7.replace('x1', 'O1')}))
+    S.append(base_spec('no_git_patch', kind='patch', git_repo=False, ours={'a.md': B7.replace('x1', 'O1')}))
+    good = None  # a valid patch text is produced at run time from 'ours'; raw ones below are literal
+    hdr = '--- a/a.md\n+++ b/a.md\n@@ -1,3 +1,3 @@\n x0\n-x1\n+O1\n x2\n'
+    S.append(base_spec('mixed_dir_with_patch', raw_patches={'a.md.patch': hdr}))
+    S.append(base_spec('dir_meta_says_patch', meta={'kind_override': 'patch'}))
+    S.append(base_spec('patch_with_override_file', kind='patch', ours={'a.md': B7.replace('x1', 'O1')}, meta={'raw_files': {'b.md': 'y0\nyy\n'}}))
+    S.append(base_spec('patches_but_meta_dir', kind='patch', ours={'a.md': B7.replace('x1', 'O1')}, meta={'kind_override': 'dir'}))
+    S.append(base_spec('empty_sparse', edit_mode='sparse'))
+    S.append(base_spec('non_patch_file_in_patches', edit_mode='sparse', raw_patches={'note.txt': 'hello\n', 'd/.patch': 'x\n'}))
+    return S
+
+def malformed_specs(rng):
+    ok = '--- a/a.md\n+++ b/a.md\n@@ -1,3 +1,3 @@\n x0\n-x1\n+O1\n x2\n'
+    variants = {
+        'plain_header_ok': ok,
+        'timestamps': '--- a/a.md\t2026-01-01 00:00:00\n+++ b/a.md\t2026-01-01 00:00:01\n@@ -1,3 +1,3 @@\n x0\n-x1\n+O1\n x2\n',
+        'no_prefix': '--- a.md\n+++ a.md\n@@ -1,3 +1,3 @@\n x0\n-x1\n+O1\n x2\n',
+        'dev_null_new': '--- a/a.md\n+++ /dev/null\n@@ -1,7 +0,0 @@\n' + ''.join('-x%d\n' % i for i in range(7)),
+        'dev_null_old': '--- /dev/null\n+++ b/a.md\n@@ -0,0 +1 @@\n+z\n',
+        'two_files': ok + '--- a/b.md\n+++ b/b.md\n@@ -1,2 +1,2 @@\n y0\n-y1\n+Y1\n',
+        'no_header': '@@ -1,3 +1,3 @@\n x0\n-x1\n+O1\n x2\n',
+        'other_path': ok.replace('a.md', 'b.md'),
+        'binary_marker': 'diff --git a/a.md b/a.md\nGIT binary patch\nliteral 0\n',
+        'not_utf8': ok.replace('O1', 'O\xff'),
+        'context_mismatch': ok.replace(' x0', ' q0'),
+        'removes_dashdash_line': '--- a/a.md\n+++ b/a.md\n@@ -1,3 +1,3 @@\n x0\n--- x1\n+O1\n x2\n',
+        'empty': '',
+    }
+    S = []
+    for nm, text in variants.items():
+        S.append(base_spec('patch_' + nm, kind='patch', raw_patches={'a.md.patch': text}))
+    S.append(base_spec('patch_upper_ext', kind='patch', raw_patches={'a.md.PATCH': ok}))
+    S.append(base_spec('patch_upper_ext_twice', kind='patch', raw_patches={'a.md.PATCH': ok, 'a.md.PATCH.patch': ok.replace('a.md', 'a.md.PATCH')}))
+    S.append(base_spec('patch_dotdot', kind='patch', raw_patches={'..patch': ok}))
+    S.append(base_spec('patch_untracked_target', kind='patch', raw_patches={'new.md.patch': ok.replace('a.md', 'new.md')},
+                       steps=[{'up': {'new.md': B7}, 'commit': True, 'sparsify': False, 'dry_first': True, 'second': True, 'noyes': False}]))
+    S.append(base_spec('patch_binary_base', kind='patch', base={'a.md': '\x00\xffbin\n', 'b.md': 'y0\ny1\n'},
+                       raw_patches={'a.md.patch': '--- a/a.md\n+++ b/a.md\n@@ -1 +1 @@\n-x\n+y\n'}))
+    S.append(base_spec('patch_crlf', kind='patch', base={'a.md': 'x0\r\nx1\r\nx2\r\n', 'b.md': 'y0\n'}, ours={'a.md': 'x0\r\nO1\r\nx2\r\n'},
+                       steps=[{'up': {'a.md': 'x0\r\nx1\r\nU2\r\n'}, 'commit': True, 'sparsify': False, 'dry_first': True, 'second': True, 'noyes': False}]))
+    return S
+
+# ------------------------------------------------------------------ driver
+
+def utf8_cases(rng, n):
+    seeds = [b'', b'abc', 'é'.encode(), '€'.encode(), '😀'.encode(), b'\x80', b'\xc0\x80', b'\xc1\xbf', b'\xc2', b'\xc2\x41', b'\xe0\x80\x80',
+             b'\xe0\x9f\xbf', b'\xe0\xa0\x80', b'\xed\x9f\xbf', b'\xed\xa0\x80', b'\xef\xbf\xbf', b'\xf0\x8f\xbf\xbf', b'\xf0\x90\x80\x80',
+             b'\xf4\x8f\xbf\xbf', b'\xf4\x90\x80\x80', b'\xf5\x80\x80\x80', b'\xff', b'a\xe2\x82', b'\xe2\x82\xac\xe2', b'\xf0\x9f\x98']
+    out = list(seeds)
+    for _ in range(n):
+        k = rng.randrange(1, 7)
+        out.append(bytes(rng.choice([rng.randrange(256), rng.choice([0x41, 0x80, 0xbf, 0xc2, 0xe0, 0xed, 0xf0, 0xf4, 0x9f, 0xa0, 0x8f, 0x90])]) for _ in range(k)))
+    return out
+
+def is_utf8(b):
+    try:
+        b.decode('utf-8'); return True
+    except UnicodeDecodeError:
+        return False
+
+def report(ctx, R, stream):
+    case = {'stream': stream, 'spec': R.spec, 'observations': getattr(R, 'ivs_summary', None)}
+    for what, extra in R.viol:
+        d = dict(case); d['detail'] = extra
+        ctx.violation(what, d)
+    for kid, what in R.known:
+        if ctx.is_known(kid):
+            ctx.known_finding(kid, what)
+        else:
+            d = dict(case); d['class'] = kid
+            ctx.violation(what, d)
+    for (st, key, nontriv, tags) in R.counts:
+        ctx.count(stream, key=key, nontrivial=nontriv, tags=tags)
+    return case
+
+def run_specs(ctx, stream, specs, workers=8):
+    """run scenarios (in parallel: each has its own sandbox), evaluate the oracle, then the model"""
+    results = [None] * len(specs)
+    def job(i):
+        try:
+            return i, run_scenario(specs[i]), None
+        except InfraError as e:
+            return i, None, str(e)
+    with concurrent.futures.ThreadPoolExecutor(max_workers=workers) as ex:
+        for i, R, err in ex.map(job, range(len(specs))):
+            if err:
+                raise InfraError('scenario %s: %s' % (specs[i].get('name'), err))
+            results[i] = R
+    cases = []
+    for R in results:
+        case = report(ctx, R, stream)
+        cases.append((R.term, case))
+    if cases:
+        ctx.sample({'stream': stream, 'spec': cases[0][1]['spec'], 'observations': cases[0][1]['observations']})
+    for c in ctx.corr(stream, HEADER, 'check_scenario', 'scenario', cases, shard_chars=40000):
+        if not neighbours_violate(ctx, c):
+            ctx.violation('model and implementation disagree on overlay rebase (%s)' % stream, c, no_input=True)
+    return results
+
+def neighbours_violate(ctx, case):
+    """a model/implementation disagreement: look for a concrete property violation around it"""
+    spec = case['spec']; found = False
+    variants = []
+    for k in range(len(spec['steps'])):
+        for sp in (False, True):
+            v = json.loads(json.dumps(spec)); v['name'] = spec['name'] + '~%d%s' % (k, 's' if sp else '')
+            v['steps'] = v['steps'][:k + 1]
+            for st in v['steps']: st.update({'dry_first': True, 'second': True})
+            v['steps'][k]['sparsify'] = sp
+            variants.append(v)
+    for v in variants[:8]:
+        try:
+            R = run_scenario(v)
+        except InfraError:
+            continue
+        for what, extra in R.viol:
+            ctx.violation(what, {'stream': 'neighbour', 'spec': v, 'detail': extra}); found = True
+        if found:
+            break
+    return found
+
+def run(ctx):
+    quick = ctx.tier == 'quick'
+    ctx.rule = ('scenario = git-backed config repo (aphome / default ~/.agentpack / AGENTPACK_HOME=~/.agentpack) with one local_path skill module of 3-7 files, '
+                'one overlay (dir full|sparse / patch, scope global|machine|project) whose per-file (base, ours, upstream_1..3) come from line-edit families '
+                '(unchanged, disjoint, adjacent, overlapping, identical edit, two conflict hunks, upstream unchanged/deleted/added, overlay copy removed/added, '
+                'no trailing newline, insert+delete, revert, upstream adopts ours, binary); per upstream update: optional refused --json call, optional '
+                '--dry-run, real rebase, optional second rebase; --sparsify 35%; 8% uncommitted upstream, 4% non-git repo. After every invocation: overlay '
+                'dir snapshot, report/error code, baseline.json, plan --json from an empty target root. git merge-file / apply / diff --no-index are run by '
+                'the harness itself as oracle values. non-trivial = some tracked overlay file or an error outcome; distinct = (kind, sparsify, set of '
+                'per-file relation classes, outcome, invocation kinds). Plus hand-written error worlds and malformed patches; UTF-8 validity cases.')
+    ctx.trusted = ['Coq 8.16.1 kernel + vm_compute', 'hand-written model coq/Model/Rebase.v (rebase_dir_file, rebase_patch_file, rebase_overlay, overlay_rebase_cmd, materialize)',
+                   'git itself (merge-file, apply, diff --no-index) as oracle of the Section variables merge3/git_apply/diff; premises diff_ok / merge answers named per theorem',
+                   'SHA-256 collision freedom (model compares contents where the code compares digests)',
+                   'Python harness: world builder, canonicaliser (conflict-marker temp-file labels, patch index line), property oracle']
+    ctx.assumptions = ['what `git merge-file` returns IS the combination of both edits (git\'s contract; the theorems hold for every merge3)',
+                       'patch overlays: apply (diff a b) a = Some b as explicit premise diff_ok on the triple at hand',
+                       'baseline identity = config repo revision; idempotence assumes the upstream module state is committed (w_head = w_up)',
+                       'known finding K14b excluded from C14_idempotent_partial',
+                       'environment: the temp dir agentpack runs `git apply` in is not inside a git work tree (git silently skips such patches)']
+    ctx.proof_phase(extra_targets=['Corr/Check_C14.vo'])
+    if ctx.replay:
+        doc = json.load(open(ctx.replay))
+        spec = doc.get('spec')
+        if not spec:
+            ctx.log('replay file names no scenario (%s); nothing to re-run' % (doc.get('broken') or doc.get('what')))
+            return
+        run_specs(ctx, 'replay', [spec], workers=1)
+        return
+    # known finding: replay its witness first
+    Rk = run_scenario(k14b_spec())
+    if any(k == 'K14b' for k, _ in Rk.known):
+        if ctx.is_known('K14b'):
+            ctx.known_finding('K14b', Rk.known[0][1])
+    else:
+        ctx.notes.append('K14b witness no longer reproduces')
+    # corpus: repaired defects and minimised past failures
+    corpus = corpus_specs()
+    if os.path.isdir(CORPUS_DIR):
+        for fn in sorted(os.listdir(CORPUS_DIR)):
+            if fn.endswith('.json'):
+                try:
+                    corpus.append(json.load(open(os.path.join(CORPUS_DIR, fn)))['spec'])
+                except Exception:
+                    pass
+    run_specs(ctx, 'corpus', corpus + [k14b_spec()])
+    run_specs(ctx, 'errors', error_specs(ctx.rng))
+    run_specs(ctx, 'malformed', malformed_specs(ctx.rng))
+    n = 400 if quick else 4000
+    specs = [gen_spec(ctx.rng, i, quick=quick) for i in range(n)]
+    for chunk in range(0, n, 300):
+        run_specs(ctx, 'scenarios', specs[chunk:chunk + 300])
+    # UTF-8 validity (patch overlays refuse non-UTF-8 text): Gallina validator vs CPython's strict decoder
+    cases = []
+    for b in utf8_cases(ctx.rng, 600 if quick else 20000):
+        ok = is_utf8(b)
+        ctx.count('utf8', key=b.hex(), nontrivial=any(x >= 0x80 for x in b), tags=['valid' if ok else 'invalid'])
+        cases.append((cq.cpair(cq.cbytes(b), cq.cbool(ok)), {'stream': 'utf8', 'bytes': b.hex(), 'valid': ok}))
+    for c in ctx.corr('utf8', HEADER, 'check_utf8', 'content * bool', cases):
+        ctx.violation('Gallina utf8_valid disagrees with the reference decoder', c, no_input=True)
